@@ -25,7 +25,7 @@ Proof.
   destruct st as [stk col out]. unfold layout_step. cbn [ls_stk ls_col ls_out].
   destruct stk as [|[[i m] d] rest]; [discriminate|]. intros HC.
   apply classic_stk_inv in HC as [Hcd HC'].
-  destruct d as [ |s|l|j x|x|x|b f|b f|l|a x| |x|p|a]; cbn [classic] in Hcd; try discriminate;
+  destruct d as [ |s|l|j x|x|x|b f|b f|l|a x| |x|p|a]; cbn [classict classic] in Hcd; try discriminate;
     intros E; try (inv E; cbn [ls_stk]; first [exact HC' | now apply classic_stk_cons]).
   - inv E. cbn [ls_stk]. now apply classic_stk_push_all.
   - destruct (fits _ _ _ _ _ _ _ _) as [[|]|]; inv E; cbn [ls_stk]; now apply classic_stk_cons.
@@ -33,6 +33,7 @@ Proof.
     inv E. cbn [ls_stk]. apply classic_stk_cons; [|exact HC']. now destruct m.
   - apply andb_prop in Hcd as [Hb Hf]. destruct b; try discriminate.
     inv E. cbn [ls_stk]. apply classic_stk_cons; [|exact HC']. now destruct m.
+  - (* annot *) inv E. cbn [ls_stk]. apply classic_stk_cons; [exact Hcd|]. now apply classic_stk_cons_t.
   - inv E. cbn [ls_stk]. apply classic_stk_cons; [|exact HC'].
     apply (classic_normalize (Nest (col - i) x)). exact Hcd.
 Qed.
@@ -70,7 +71,7 @@ Proof.
   eapply flat_group_first_line; eauto.
   change ((i, m, Group x) :: rest) with (ls_stk (mkL ((i, m, Group x) :: rest) col o)).
   eapply classic_steps; [|exact HS]. unfold init_state. cbn [ls_stk].
-  constructor; [|constructor]. cbn [snd]. now apply classic_normalize.
+  constructor; [|constructor]. cbn [snd]. apply classic_t. now apply classic_normalize.
 Qed.
 
 End FlatFits.
